@@ -107,6 +107,8 @@ def main():
         },
         "engines": [
             {"name": "E1 program VM + monitor", "path": "/verif/harness/vcore/src/vm", "serves_properties": ["C01","C02","C03","C04","C05","C06","C15","C16"], "kind_free_text": "proptest byte strings -> program VM driving the real Stakker; lock-step specification-level monitor; counting allocator"},
+            {"name": "E7 coverage-guided fuzzing", "path": "/verif/harness/vfuzz", "serves_properties": ["C01","C07","C08","C09","C10","C16","C17","C19"], "kind_free_text": "cargo-fuzz targets prog/timers/queue (libFuzzer + AddressSanitizer) over the same byte decoders with the oracles inside the target; thorough tier only"},
+            {"name": "E5 Miri campaign", "path": "/verif/harness/vmiri", "serves_properties": ["C11"], "kind_free_text": "real std threads under cargo +nightly miri run, -Zmiri-many-seeds; plain cell written before wake() and read by the handler"},
             {"name": "E4 schedule explorer", "path": "/verif/harness/vsched", "serves_properties": ["C11","C12","C13","C14"], "kind_free_text": "stakker built through /verif/harness/shadow (lib path /repo/src/lib.rs + shuttle) with --cfg uazu_stakker_verif; byte-driven shuttle Scheduler + random/PCT; scenarios for Waker, Channel, PipedThread"},
             {"name": "E6 feature-matrix differential", "path": "/verif/harness/vcheck/src/matrix.rs", "serves_properties": ["C18","C20"], "kind_free_text": "vrun binary per feature set (built by ./check), persistent servers, trace-hash equality; logger sets additionally checked for Open/Close records"},
             {"name": "E3 queue differential", "path": "/verif/harness/vcore/src/queues.rs", "serves_properties": ["C17"], "kind_free_text": "flat.rs vs boxed.rs side by side: enumerated boundary sweep + proptest op sequences, event-log equality"},
